@@ -173,8 +173,8 @@ func runStressLive(f lib.Flags, mon *lib.Monitor) {
 		wg.Wait()
 		mon.Eval(fmt.Sprint("live", i), true, nil)
 		in := map[string]any{"kind": "stress", "goroutines": g, "rounds": rounds}
-		addInv := map[int]int64{}  // client -> invocation of its Add
-		goneBy := map[int]int64{}  // client -> response time of the operation that took it out (Remove / replacing Add)
+		addInv := map[int]int64{} // client -> invocation of its Add
+		goneBy := map[int]int64{} // client -> response time of the operation that took it out (Remove / replacing Add)
 		for _, l := range logs {
 			for _, o := range l {
 				if o.kind == "add" {
